@@ -894,6 +894,14 @@ func genCmap(t *rapid.T, n int, o Opts, noLiga bool, c *Case, fl *filler) (cmap.
 				mac[uint16(r)] = g
 			}
 		}
+		if rapid.Bool().Draw(t, "macHighCodes") {
+			// codes 0x80..0xFF of a Macintosh subtable are Mac Roman codes,
+			// not Unicode code points (0x8A is a-dieresis, U+00E4)
+			for i := rapid.IntRange(1, 4).Draw(t, "nMacHigh"); i > 0; i-- {
+				mac[uint16(rapid.IntRange(0x80, 0xFF).Draw(t, "macCode"))] = glyph.ID(rapid.IntRange(1, n-1).Draw(t, "macGid"))
+			}
+			c.label("cmap-mac-high-codes")
+		}
 		langs := rapid.SampledFrom([][]uint16{{0}, {0, 2}, {5, 1}, {0, 1, 2}}).Draw(t, "macLangs")
 		for _, l := range langs {
 			tbl[cmap.Key{PlatformID: 1, EncodingID: 0, Language: l}] = mac.Encode(l)
